@@ -1645,7 +1645,7 @@ def oracle(rng, tier, seed, focus, cases=None):
             where = next((f for f in reversed(tb) if '/nitime/' in f.filename), tb[-1])
             fails.append(Failure('experiment/%s/raises-%s' % (name, err_kind(e)),
                                  'the %s experiment died inside the library: %r at %s:%s' % (name, e, where.filename.split('/')[-1], where.name),
-                                 {'what': 'copies' if name != 'sweep' else 'sweep'} if not name.startswith('r2-') else {'what': 'r2', 'part': {'r2-series': 'series', 'r2-entry-failures': 'entry-failures', 'r2-entry-aliases': 'entry-aliases', 'r2-analyzers': 'analyzers'}[name]}))
+                                 {'what': 'copies' if name != 'sweep' else 'sweep'} if not name.startswith('r2-') else {'what': 'r2', 'part': {'r2-series': 'series', 'r2-entry-failures': 'entry-failures', 'r2-entry-aliases': 'entry-aliases', 'r2-analyzers': 'analyzers', 'r2-axis-operands': 'axis-operands'}[name]}))
             return default
     f2, stats = guarded('sweep', lambda: sweep(tier, seed), ([], {}))
     fails += f2
